@@ -413,3 +413,76 @@ Lemma atkeyword_literal_pref p k d : p.(defaultAtKeyword) = false -> k <> [] -> 
 Proof. unfold atkeyword. intros -> H. destruct k; [congruence|reflexivity]. Qed.
 Lemma atkeyword_no_literal p d : atkeyword p None d = d.
 Proof. unfold atkeyword. destruct (defaultAtKeyword p); reflexivity. Qed.
+
+(* ------------------------------------------------------------------ emptiness: when is a style rule printed *)
+Lemma split_aux_keeps sep c : sep <> [] -> mem c sep = false ->
+  forall fuel cur t, (length t < fuel)%nat -> In c (rev cur ++ t) ->
+    exists piece, In piece (split_aux sep fuel cur t) /\ In c piece.
+Proof.
+  intros Hne Hc. induction fuel as [|f IH]; intros cur t Hf Hin; [lia|].
+  destruct t as [|x t']; simpl.
+  - rewrite app_nil_r in Hin. eauto.
+  - destruct (starts sep (x :: t')) eqn:Hs.
+    + apply starts_spec in Hs as [r Hr].
+      assert (Hsk : skipn (length sep) (x :: t') = r) by (rewrite Hr; apply skipn_app_exact || (rewrite skipn_app, Nat.sub_diag, skipn_all; reflexivity)).
+      rewrite Hsk.
+      rewrite Hr in Hin. apply in_app_or in Hin as [Hin|Hin]; [exists (rev cur); split; [left; reflexivity|assumption]|].
+      apply in_app_or in Hin as [Hin|Hin].
+      * apply mem_In in Hin. congruence.
+      * assert (Hlen : (length r < f)%nat).
+        { assert (length (x :: t') = length sep + length r)%nat by (rewrite Hr, app_length; reflexivity).
+          destruct sep; [congruence|]. simpl in *. lia. }
+        destruct (IH [] r Hlen Hin) as (pc & Hp & Hcp). exists pc. split; [right; assumption|assumption].
+    + simpl in Hf. assert (Hlen : (length t' < f)%nat) by lia.
+      apply (IH (x :: cur) t' Hlen). simpl. rewrite <- app_assoc. exact Hin.
+Qed.
+
+Lemma join_nonempty sep l x : In x l -> x <> [] -> join sep l <> [].
+Proof.
+  induction l as [|y r IH]; simpl; intros Hin Hx; [contradiction|].
+  destruct r as [|z r'].
+  - destruct Hin as [->|[]]; assumption.
+  - destruct Hin as [->|Hin].
+    + destruct x; [congruence|discriminate].
+    + intros H. apply app_eq_nil in H as [_ H]. apply app_eq_nil in H as [_ H]. revert H. apply IH; assumption.
+Qed.
+
+(* _indentblock keeps every character that cannot be part of the line separator *)
+Lemma indentblock_keeps p text level c :
+  mem c p.(lineSeparator) = false -> In c text -> indentblock p text level <> [].
+Proof.
+  intros Hc Hin. unfold indentblock. destruct (lineSeparator p) as [|s0 sp] eqn:Hsep; simpl is_nil.
+  - intros ->. contradiction.
+  - assert (Hne : s0 :: sp <> []) by discriminate.
+    destruct (split_aux_keeps (s0 :: sp) c Hne Hc (S (length text)) [] text (Nat.lt_succ_diag_r _) Hin)
+      as (piece & Hp & Hcp).
+    apply join_nonempty with (x := repeat_str level (indent p) ++ piece).
+    + apply in_map. apply filter_In. split; [exact Hp|]. destruct piece; [contradiction|reflexivity].
+    + intros H. apply app_eq_nil in H as [_ H]. subst. contradiction.
+Qed.
+
+(* a style rule is written iff it has a selector text, is well-formed, and has a non-empty declaration text or
+   keepEmptyRules is set -- for every preference record whose line separator does not contain the closing brace
+   (in particular all ws_prefs) *)
+Lemma stylerule_printed_iff p lvl sel wf ds :
+  mem 125%N p.(lineSeparator) = false ->
+  (do_stylerule p lvl sel wf ds <> [] <->
+   sel <> [] /\ wf = true /\ (do_styledecl p true ds <> [] \/ p.(keepEmptyRules) = true)).
+Proof.
+  intros Hb. unfold do_stylerule.
+  destruct sel as [|c0 sel]; simpl is_nil; simpl orb; [split; [congruence|intros [H _]; congruence]|].
+  destruct wf; simpl negb; [|split; [congruence|intros (_ & H & _); discriminate]].
+  destruct (do_styledecl p true ds) as [|d0 dt] eqn:Hd; simpl is_nil.
+  - destruct (keepEmptyRules p).
+    + split; [intros _; repeat split; auto; discriminate|intros _; discriminate].
+    + split; [congruence|intros (_ & _ & [H|H]); congruence].
+  - split; [intros _; repeat split; [discriminate|left; discriminate]|intros _].
+    apply indentblock_keeps with (c := 125%N); [assumption|].
+    repeat (apply in_or_app; right). simpl. repeat (apply in_or_app; right). left. reflexivity.
+Qed.
+
+Lemma ws_only_no_brace t : ws_only t = true -> mem 125%N t = false.
+Proof.
+  intros H. destruct (mem 125%N t) eqn:Hm; [|reflexivity].
+  apply mem_In in Hm. unfold ws_only in H. rewrite forallb_forall in H. specialize (H _ Hm). discriminate.
+Qed.
